@@ -20,6 +20,11 @@ def tok(n):
     return out
 
 
+# how a property key is spelled: "Kx3", or - in every other case - "@Kx3": a quoted key that looks like a type name is a
+# plain key all the same, in the type that declares it and in every heir
+KEY = ['Kx']
+
+
 def text(n, indent, opt=False, comma=''):
     pad = '  ' * indent
     if n[0] == 'L':
@@ -32,7 +37,7 @@ def text(n, indent, opt=False, comma=''):
     if opt:
         rules.append('optional: true')
     ann = (' // {%s}' % ', '.join(rules)) if rules else ''
-    props = [pad + '  "Kx%d": ' % k + text(v, indent + 1, bool(o), ',' if i + 1 < len(n[3]) else '') for i, (k, o, v) in enumerate(n[3])]
+    props = [pad + '  "%s%d": ' % (KEY[0], k) + text(v, indent + 1, bool(o), ',' if i + 1 < len(n[3]) else '') for i, (k, o, v) in enumerate(n[3])]
     return '{' + ann + '\n' + ''.join(x + '\n' for x in props) + pad + '}' + comma
 
 
@@ -98,6 +103,8 @@ class Prop:
         g = tok(root)
         for i in sorted(types):
             g += [';', str(i)] + tok(types[i])
+        self.made = getattr(self, 'made', 0) + 1
+        KEY[0] = '@Kx' if self.made % 2 == 0 else 'Kx'
         p = [hx(text(root, 0))]
         for i in sorted(types):
             p += ['T', hx(tname(i)), 'J', hx(text(types[i], 0))]
@@ -213,6 +220,7 @@ class Prop:
         out = []
         for item in s.split(','):
             k, o, fr = item.split(':')
+            k = k[1:] if k.startswith('@Kx') else k
             out.append('%s:%s:%s' % (k[2:] if k.startswith('Kx') else k, o, fr[2:] if fr.startswith('@t') else (fr or '0')))
         return ','.join(out)
 
@@ -244,16 +252,17 @@ class Prop:
         exp = ','.join('%d:%d:%d' % p for p in want[1]) or '-'
         if self.norm_keys(keys) != exp:
             return 'compiled properties %s, expected own + inherited = %s' % (self.norm_keys(keys), exp)
-        ek = ','.join('Kx%d' % p[0] for p in want[1]) or '-'
+        kp = '@Kx' if '22404b78' in case.line.split(' || ')[1] else 'Kx'       # "@Kx in the schema text
+        ek = ','.join('%s%d' % (kp, p[0]) for p in want[1]) or '-'
         if ex is not None and ex != ek:
             return 'Example() shows keys %s, expected %s' % (ex, ek)
-        ik = ','.join('Kx%d:%d' % (p[0], p[1]) for p in want[1]) or '-'
+        ik = ','.join('%s%d:%d' % (kp, p[0], p[1]) for p in want[1]) or '-'
         if info is not None and info != ik:
             return 'OpenAPI property listing shows %s, expected %s' % (info, ik)
         # keys at every depth of the example (nested objects of inherited types too) are spelled as in the source
         md = re.search(r' deep=(\S+)', out)
         if md and md.group(1) != '-':
-            odd = [k for k in md.group(1).split(',') if not re.match(r'Kx\d+$', k)]
+            odd = [k for k in md.group(1).split(',') if not re.match(r'@?Kx\d+$', k)]
             if odd:
                 return 'Example() has keys that no type of the schema spells that way: %s' % ','.join(odd)
         return None
